@@ -13,8 +13,10 @@ import (
 	"flag"
 	"fmt"
 	"os"
+	"sort"
 	"strconv"
 	"strings"
+	"time"
 
 	gio "github.com/whatap/golib/io"
 	"github.com/whatap/golib/lang/value"
@@ -35,6 +37,9 @@ type tcase struct {
 	reenc    []byte
 	reOut    vh.Outcome
 	errExp   bool   // the encoding is outside the format (array too long): both sides must reject it
+	hung     bool   // the worker did not answer within the deadline and was killed
+	died     bool   // the worker process died
+	phase    string // where it was: build | encode | decode
 	connLine string // decoded through a net.Conn-backed DataInputX
 	connOut  vh.Outcome
 	connRun  bool
@@ -71,7 +76,7 @@ func encode(g value.Value) []byte {
 
 func runImpl(c *tcase) {
 	var g value.Value
-	c.wOut = vh.Guard(func() {
+	c.wOut = vh.GuardTimeout(implDeadline, func() {
 		g = build(c.v, c.hseed)
 		c.bytes = encode(g)
 	})
@@ -79,7 +84,7 @@ func runImpl(c *tcase) {
 		return
 	}
 	in := append(append([]byte{}, c.bytes...), c.rest...)
-	c.rOut = vh.Guard(func() {
+	c.rOut = vh.GuardTimeout(implDeadline, func() {
 		din := gio.NewDataInputX(in)
 		d := value.ReadValue(din)
 		c.avail = din.Available()
@@ -93,7 +98,14 @@ func runImpl(c *tcase) {
 }
 
 // encodings up to this size are also decoded through a connection-backed input (0 = off)
+// deadline of an implementation call made in this process (shrinking, tag table, re-encode stage);
+// a call that exceeds it leaves its goroutine behind and is reported as a hang
+const implDeadline = 10 * time.Second
+
 var connLimit = 0
+
+// how many hanging cases have been narrowed down to their smallest hanging container
+var hangProbes = 0
 
 func kindPath(v *vg.V) string { return vg.TypeName[v.K] }
 
@@ -118,6 +130,10 @@ func main() {
 	env, rep := vh.Parse("C02")
 	if *child == "history" {
 		childMain(env.Seed, env.Thorough)
+		return
+	}
+	if *child == "worker" {
+		workerMain()
 		return
 	}
 	rng := vh.NewRng(env.Seed)
@@ -159,9 +175,7 @@ func main() {
 	var flush func(final bool)
 	flush0 = func() { flush(false) }
 	flush = func(final bool) {
-		for _, c := range cases {
-			runImpl(c)
-		}
+		runBatch(cases) // implementation calls happen in worker processes, each case under a deadline
 		var lines []string
 		for _, c := range cases {
 			lines = append(lines, "E "+c.line, "W "+c.line)
@@ -248,6 +262,42 @@ func main() {
 				rep.Sample(map[string]string{"value": vh.Clip(c.line, 300), "bytes": vh.Clip(vh.Hex(c.bytes), 200)})
 			}
 
+			if c.hung || c.died {
+				// non-termination (or a fatal crash) of the implementation: name the smallest container that does it alone
+				what, verb := "did not finish within its deadline (the worker process was killed)", "hangs"
+				if c.died {
+					what, verb = "killed its process (unrecoverable runtime fatal)", "crashes"
+				}
+				bad, phase := c.v, c.phase
+				if hangProbes < 4 {
+					hangProbes++
+					var cands []*vg.V
+					c.v.Walk(func(n *vg.V) {
+						if n != c.v && (n.K == "l" || n.K == "m" || n.K == "im") {
+							cands = append(cands, n)
+						}
+					})
+					sort.SliceStable(cands, func(i, j int) bool { return cands[i].Nodes() < cands[j].Nodes() })
+					if len(cands) > 60 {
+						cands = cands[:60]
+					}
+					for _, n := range cands {
+						if h, ph := hangsAlone(n, c.hseed, 3*time.Second); h {
+							bad, phase = n, ph
+							break
+						}
+					}
+				}
+				op := "WriteValue"
+				if phase == "decode" {
+					op = "ReadValue"
+				}
+				rep.Fail("property", op+":"+kindPath(bad)+":"+verb,
+					"the implementation "+what+" while it was in phase '"+phase+"' (build = Put / Add calls constructing the value, encode = WriteValue, decode = ReadValue / re-encode)",
+					replayOf(c, map[string]interface{}{"phase": phase, "smallest": vh.Clip(bad.LineX(), 3000)}))
+				rep.Count("hang-or-crash")
+				continue
+			}
 			if c.errExp {
 				rep.Count("outside-format:array-too-long")
 				if c.wOut.OK() && vh.Hex(c.bytes) != mEnc {
@@ -355,11 +405,15 @@ func main() {
 			for j, b := range tagIn {
 				m := outs[base+j]
 				var got string
-				o := vh.Guard(func() {
+				o := vh.GuardTimeout(implDeadline, func() {
 					din := gio.NewDataInputX(b)
 					d := value.ReadValue(din)
 					got = "ok " + vg.FromGo(d).Line() + " " + strconv.Itoa(int(din.Available()))
 				})
+				if o.Timeout {
+					rep.Fail("property", fmt.Sprintf("ReadValue:tag-%d:hangs", b[0]), "ReadValue did not return on a short input", map[string]interface{}{"bytes": vh.Hex(b)})
+					continue
+				}
 				if !o.OK() {
 					got = "fail"
 				}
@@ -392,7 +446,7 @@ func main() {
 					var b []byte
 					differs := false
 					for _, h := range historySeeds(p.c.hseed) {
-						o := vh.Guard(func() { b = encode(build(s, h)) })
+						o := vh.GuardTimeout(implDeadline, func() { b = encode(build(s, h)) })
 						if o.OK() && vh.Hex(b) != m {
 							differs = true
 							if h != 0 {
@@ -504,6 +558,31 @@ func main() {
 				l.L = append(l.L, g2.Flat(vg.FlatKinds[i%len(vg.FlatKinds)]))
 			}
 			add(l, nil)
+		}
+		// WIDE and COLLIDING: 76 … 420 entries (every growth threshold of the tables: 75, 152, 305) whose keys
+		// share buckets at every table size, built plainly and through a history
+		for _, w := range []int{76, 77, 100, 152, 153, 160, 230, 305, 306, 420} {
+			g2 := vg.New(rng.Fork(), vg.Opt{Depth: 2, Width: w, Nil: true})
+			for rep2 := 0; rep2 < 3; rep2++ {
+				im := &vg.V{K: "im"}
+				for _, key := range g2.WideCollidingIntKeys(w) {
+					im.IKs = append(im.IKs, key)
+					im.L = append(im.L, g2.Flat([]string{"D", "T", "N"}[rep2]))
+				}
+				m := &vg.V{K: "m"}
+				for _, key := range g2.WideCollidingStrKeys(w) {
+					m.Ks = append(m.Ks, key)
+					m.L = append(m.L, g2.Flat([]string{"B", "I", "X"}[rep2]))
+				}
+				c1, c2 := add(im, nil), add(m, nil)
+				if rep2 == 1 {
+					c1.hseed, c2.hseed = rng.U64()|1, rng.U64()|1
+				}
+				if rep2 == 2 { // nested: the wide map sits inside a list inside a map
+					add(&vg.V{K: "m", Ks: [][]byte{[]byte("outer")}, L: []*vg.V{{K: "l", L: []*vg.V{im.Clone(), m.Clone()}}}}, nil)
+				}
+				rep.Count("wide-and-colliding")
+			}
 		}
 		{ // deep chain alternating the three containers
 			depth := 40
